@@ -924,6 +924,18 @@ def render_derived(n):
     raise ValueError(mk)
 
 
+def describe(tree):
+    """Expression text with the definitions of its leaves: `(L0 // 1) where L0 = Range(0.5, 2.5)`."""
+    defs, seen = [], set()
+    for n in walk(tree):
+        if n[0] == "L" and n[2] not in seen:
+            seen.add(n[2])
+            defs.append(f"L{n[2]} = {render_leaf(LEAVES[n[1]][1])}")
+        elif n[0] == "M":
+            defs.append(f"M{n[2]} = {render_derived(n)}")
+    return render_expr(tree) + (" where " + "; ".join(defs) if defs else "")
+
+
 PRELUDE = "import gen.expr_c05 as G\n"
 
 
